@@ -161,6 +161,10 @@ Q1 = COMMON + [
  ("link coords", _on("LC", lambda l: (l.from_coords, l.to_coords, l.beg1, l.end1, l.beg2, l.end2) if l.from_segment.length and l.to_segment.length and not gfapy.is_placeholder(l.overlap) else None)),
  ("containment pos", _on("C", lambda c: (c.pos, c.rpos if not gfapy.is_placeholder(c.overlap) else None, c.container, c.contained, c.container_orient, c.contained_orient))),
  ("path reads", _on("P", lambda p: (p.segment_names, p.overlaps, p.links, p.captured_path, p.captured_segments, p.captured_edges, p.is_circular(), p.is_linear()))),
+ # (computed accessors also asked alone: a query that undoes its own side effect when run an even number of times
+ #  must not hide behind the tuple above)
+ ("P captured_path alone", _on("P", lambda p: p.captured_path)),
+ ("P captured_edges alone", _on("P", lambda p: p.captured_edges)),
  ("path required links", _on("P", lambda p: p._compute_required_links())),
  ("segment.validate_length", _on("S", lambda s: s.validate_length())),
  ("line.to_gfa2_s", lambda g: _each(g, lambda l: l.to_gfa2_s() if l.record_type in "#H" or (l.record_type == "S" and l.length is not None) else None)),
@@ -174,6 +178,11 @@ Q2 = COMMON + [
  ("gap reads", _on("G", lambda x: (x.sid1, x.sid2, x.disp, x.var, x.sets))),
  ("fragment reads", _on("F", lambda f: (f.sid, f.external, f.s_beg, f.s_end, f.f_beg, f.f_end, f.alignment))),
  ("O captured", _on("O", lambda o: (o.items, o.captured_path, o.captured_segments, o.captured_edges, o.paths, o.sets))),
+ ("O captured_path alone", _on("O", lambda o: o.captured_path)),
+ ("O captured_segments alone", _on("O", lambda o: o.captured_segments)),
+ ("O captured_edges alone", _on("O", lambda o: o.captured_edges)),
+ ("U induced_set alone", _on("U", lambda u: u.induced_set)),
+ ("U induced_edges_set alone", _on("U", lambda u: u.induced_edges_set)),
  ("U induced", _on("U", lambda u: (u.items, u.induced_set, u.induced_segments_set, u.induced_edges_set, u.sets))),
  ("line.to_gfa1_s", lambda g: _each(g, lambda l: l.to_gfa1_s() if l.record_type in "#HSEO" else None)),
  ("gfa.to_gfa1_s", lambda g: g.to_gfa1_s()),
